@@ -136,6 +136,9 @@ def make_ops():
     A(dict(op="build-lifetime", shape="full"))
     A(dict(op="build-lifetime", shape="permuted"))
     A(dict(op="build-lifetime", shape="subset"))
+    A(dict(op="build-lifetime", shape="raw"))
+    for how in ("union", "append", "expand_by", "dim-plus-set", "intersect", "get_subset"):
+        A(dict(op="ctor-from-derived-set", x=0, y=4, how=how))
     A(dict(op="build-system-export"))
     return ops
 
@@ -249,6 +252,34 @@ def apply_op(st, op, check):
         if name == "read":
             x = r[op["x"]]
             return x[key_for(x, op["key"])]
+        if name == "ctor-from-derived-set":
+            # an array built from a DimensionSet that is itself the fresh RESULT of a set operation: the array's own
+            # dimension set is independent of that object (in-place edits on either side stay on that side)
+            x, y = r[op["x"]], r[op["y"]]
+            z = Dimension(name="Zeta", letter="z", items=["z1"])
+            e = Dimension(name="Epsi", letter="e", items=list(ITEMS["e"]))
+            ds = {
+                "union": lambda: x.dims | y.dims,
+                "append": lambda: x.dims.append(e),
+                "expand_by": lambda: x.dims.expand_by([e]),
+                "dim-plus-set": lambda: e + x.dims,
+                "intersect": lambda: x.dims & y.dims,
+                "get_subset": lambda: x.dims.get_subset(tuple(reversed(x.dims.letters))),
+            }[op["how"]]()
+            letters = tuple(ds.letters)
+            for first in (True, False):  # the first and the second array built from that set
+                arr = FlodymArray(dims=ds)
+                ds.append(z, inplace=True)
+                leaked = "z" in arr.dims.letters
+                ds.drop("z", inplace=True)
+                if leaked or tuple(arr.dims.letters) != letters:
+                    raise AssertionError(f"INPUT-CHANGED: an in-place edit of the DimensionSet returned by {op['how']} reached the {'first' if first else 'second'} array built from it")
+                arr.dims.append(z, inplace=True)
+                leaked = "z" in ds.letters
+                arr.dims.drop("z", inplace=True)
+                if leaked or tuple(ds.letters) != letters:
+                    raise AssertionError(f"INPUT-CHANGED: an in-place edit of the dims of an array built from the result of {op['how']} reached that DimensionSet")
+            return None
         if name == "ctor-from":
             x = r[op["x"]]
             probe_values = False
@@ -354,7 +385,7 @@ def apply_op(st, op, check):
             if not ok:
                 raise AssertionError("RHS-ALIASED: editing the target in place afterwards changed the right-hand side")
             return None
-        if name in ("build-stock", "build-lifetime", "build-system-export"):
+        if name in ("build-stock", "build-lifetime", "build-system-export") or name == "never":
             return build_objects(op, extra_inputs)
         raise ValueError(name)
 
@@ -464,6 +495,30 @@ def build_objects(op, extra_inputs):
         if moved:
             raise AssertionError(f"INPUT-CHANGED: lifetime parameter '{attr}' aliases the array it was built from (later changes to the array reach the model)")
 
+    if op["op"] == "build-lifetime" and op["shape"] == "raw":
+        # parameters handed over as raw float64 ndarrays of the model's full shape, then replaced by others (as in a
+        # scenario loop): the first arrays are the caller's and stay as they were
+        raw1 = dict(mean=mean_full.values.copy(), std=np.full((3, 3), 0.5))
+        raw2 = dict(mean=mean_full.values.copy() + 1.0, std=np.full((3, 3), 0.75))
+        keep1 = {k: v.copy() for k, v in raw1.items()}
+        keep2 = {k: v.copy() for k, v in raw2.items()}
+        for via in ("ctor", "set_prms"):
+            if via == "ctor":
+                lm = flodym.NormalLifetime(dims=dims, **raw1)
+            else:
+                lm = flodym.NormalLifetime(dims=dims)
+                lm.set_prms(**raw1)
+            _ = lm.sf
+            lm.set_prms(**raw2)
+            _ = lm.pdf
+            lm.set_prms(mean=2.0, std=0.25)
+            for nm in raw1:
+                if not np.array_equal(raw1[nm], keep1[nm]):
+                    raise AssertionError(f"INPUT-CHANGED: the ndarray handed over as '{nm}' ({via}) was modified by a later set_prms")
+                if not np.array_equal(raw2[nm], keep2[nm]):
+                    raise AssertionError(f"INPUT-CHANGED: the ndarray handed over as '{nm}' in the second set_prms was modified by a later set_prms")
+        verify("raw parameters")
+        return None
     if op["op"] == "build-lifetime":
         key = {"full": "mean_full", "permuted": "mean_perm", "subset": "mean_sub"}[op["shape"]]
         lm = flodym.NormalLifetime(dims=dims, mean=arrays[key], std=0.5)
